@@ -284,6 +284,7 @@ def run(plugin, prop, tier, seed, work, replay, t0):
                         keep = getattr(plugin, "shrink_keep", lambda l: False)
                         try:
                             p = vlib.shrink(pair, p, keep)
+                            p.shrunk = True
                         except Exception:
                             log(traceback.format_exc())
                         # the shrunk form may be a recorded finding
@@ -337,7 +338,17 @@ def run(plugin, prop, tier, seed, work, replay, t0):
             else:
                 broken.append(("correspondence %s/%s" % (plugin.COMPONENT, prop), repr(p)))
     if real:
+        # report the input that speaks most directly about *this* property (plugin hook, optional)
+        if hasattr(plugin, "problem_rank"):
+            real.sort(key=lambda q: plugin.problem_rank(prop, q))
         p = real[0]
+        if pair and not getattr(p, "shrunk", False) and p.kind != "crash":
+            try:
+                q = vlib.shrink(pair, p, getattr(plugin, "shrink_keep", lambda l: False))
+                if not hasattr(plugin, "problem_rank") or plugin.problem_rank(prop, q) <= plugin.problem_rank(prop, p):
+                    p = q
+            except Exception:
+                log(traceback.format_exc())
         path = write_replay(prop, tier, seed, p, broken, len(real), plugin.COMPONENT)
         lines.append("VIOLATION property=%s replay=%s" % (prop, path))
         rc = 1
